@@ -877,6 +877,233 @@ VResult o_pool(const VCase &c) {
   return r;
 }
 
+// ============================ 1b. bulk / quiescent operations of the slot pool
+// get_free_elements, clear_after, clear_fast, clear are only legal while no
+// other operation is in progress (the simulation calls them between parallel
+// regions): a sequential history against the ownership model
+enum { PH_GET = 0, PH_SAFE, PH_FREE, PH_BULK, PH_CLEAR_AFTER, PH_CLEAR_FAST,
+       PH_CLEAR, PH_NOPS };
+
+VCase gen_phase_case() {
+  VCase c;
+  const int size = (int)vr::irange(2, 9);
+  c.I("size", size);
+  const int n = (int)vr::irange(4, 40);
+  std::vector<int64_t> ops;
+  for (int k = 0; k < n; ++k) {
+    int op;
+    if (k == 0 && vr::coin(0.6))
+      op = PH_BULK;
+    else
+      op = vr::weighted({8, 3, 5, 2, 3, 1, 1});
+    ops.push_back(op);
+    ops.push_back(vr::irange(0, 999));
+  }
+  c.I("ops", ops);
+  return c;
+}
+
+VResult o_phases(const VCase &c) {
+  CaseScope scope(c);
+  VResult r;
+  const size_t size = (size_t)c.i("size");
+  const auto &ops = c.iv("ops");
+  ThreadSafeVector<int> vec(size, "c08-phases");
+  std::map<size_t, int> held; // slot -> tag written by the holder
+  int next_tag = 1;
+  int bulk_ops = 0, gets_after_bulk = 0, released_by_clear_after = 0,
+      kept_by_clear_after = 0, refused = 0, wrapped = 0, skipped = 0;
+  size_t gets = 0;
+  std::vector<int *> out(size + 1);
+
+  // quiescent-state invariants; returns false (and records why) on a violation
+  auto invariants = [&](const char *after, int k) -> bool {
+    const size_t count = vec.get_number_of_active_elements();
+    if (count != held.size()) {
+      r.fail(fmt("op %d (%s): occupancy count %zu, slots held %zu", k, after,
+                 count, held.size()));
+      return false;
+    }
+    if (vec.is_empty() != held.empty()) {
+      r.fail(fmt("op %d (%s): is_empty() = %d with %zu slots held", k, after,
+                 (int)vec.is_empty(), held.size()));
+      return false;
+    }
+    const size_t nact = vec.get_active_elements(size + 1, out.data());
+    if (nact != held.size()) {
+      r.fail(fmt("op %d (%s): %zu slots are marked in use, %zu are held", k,
+                 after, nact, held.size()));
+      return false;
+    }
+    size_t j = 0;
+    for (const auto &h : held) {
+      if (out[j] != &vec[h.first]) {
+        r.fail(fmt("op %d (%s): slot marked in use #%zu is not the held slot "
+                   "%zu",
+                   k, after, j, h.first));
+        return false;
+      }
+      if (vec[h.first] != h.second) {
+        r.fail(fmt("op %d (%s): content of held slot %zu changed from %d to "
+                   "%d",
+                   k, after, h.first, h.second, vec[h.first]));
+        return false;
+      }
+      ++j;
+    }
+    return true;
+  };
+  // a request that the model says must succeed: never call into a pool whose
+  // flags are all set (the call would spin forever)
+  auto take = [&](bool safe, int k) -> bool {
+    const size_t nact = vec.get_active_elements(size + 1, out.data());
+    if (nact >= size) {
+      r.fail(fmt("op %d: %zu of %zu slots are held but all slots are marked "
+                 "in use: a released slot did not become available again",
+                 k, held.size(), size));
+      return false;
+    }
+    const size_t i = safe ? vec.get_free_element_safe() : vec.get_free_element();
+    if (safe && i == size) {
+      r.fail(fmt("op %d: get_free_element_safe refused with %zu of %zu slots "
+                 "held",
+                 k, held.size(), size));
+      return false;
+    }
+    if (i >= size) {
+      r.fail(fmt("op %d: slot index %zu outside the pool of %zu", k, i, size));
+      return false;
+    }
+    if (held.count(i)) {
+      r.fail(fmt("op %d: slot %zu handed out while it is still held", k, i));
+      return false;
+    }
+    ++gets;
+    if (gets > size)
+      wrapped = 1;
+    if (bulk_ops)
+      ++gets_after_bulk;
+    held[i] = next_tag;
+    vec[i] = next_tag++;
+    return true;
+  };
+
+  for (size_t q = 0; q + 1 < ops.size() && r.ok; q += 2) {
+    const int k = (int)(q / 2);
+    const int op = (int)ops[q];
+    const int64_t a = ops[q + 1];
+    const char *name = "?";
+    switch (op) {
+    case PH_GET:
+      name = "get_free_element";
+      if (held.size() == size) { // the documented precondition: not full
+        name = "get_free_element_safe(full)";
+        if (vec.get_free_element_safe() != size)
+          r.fail(fmt("op %d: a full pool handed out a slot", k));
+        ++refused;
+      } else
+        take(false, k);
+      break;
+    case PH_SAFE:
+      name = "get_free_element_safe";
+      if (held.size() == size) {
+        if (vec.get_free_element_safe() != size)
+          r.fail(fmt("op %d: a full pool handed out a slot", k));
+        ++refused;
+      } else
+        take(true, k);
+      break;
+    case PH_FREE: {
+      name = "free_element";
+      if (held.empty()) {
+        ++skipped;
+        break;
+      }
+      auto it = held.begin();
+      std::advance(it, (size_t)a % held.size());
+      vec.free_element(it->first);
+      held.erase(it);
+      break;
+    }
+    case PH_BULK: {
+      name = "get_free_elements";
+      if (!held.empty()) { // start-up only: the pool is empty
+        ++skipped;
+        break;
+      }
+      const size_t n = (size_t)a % size; // the call requires n < size
+      vec.get_free_elements(n);
+      for (size_t i = 0; i < n; ++i) {
+        held[i] = next_tag;
+        vec[i] = next_tag++;
+      }
+      ++bulk_ops;
+      break;
+    }
+    case PH_CLEAR_AFTER: {
+      name = "clear_after";
+      // the caller keeps a leading block (the hydro tasks) and drops the rest
+      size_t lead = 0;
+      while (lead < size && held.count(lead))
+        ++lead;
+      const size_t offset = (size_t)a % (lead + 1);
+      vec.clear_after(offset);
+      for (auto it = held.begin(); it != held.end();) {
+        if (it->first >= offset) {
+          it = held.erase(it);
+          ++released_by_clear_after;
+        } else {
+          ++it;
+          ++kept_by_clear_after;
+        }
+      }
+      ++bulk_ops;
+      break;
+    }
+    case PH_CLEAR_FAST:
+      name = "clear_fast";
+      if (!held.empty()) { // asserted precondition
+        ++skipped;
+        break;
+      }
+      vec.clear_fast();
+      ++bulk_ops;
+      break;
+    case PH_CLEAR:
+      name = "clear";
+      vec.clear();
+      held.clear();
+      ++bulk_ops;
+      break;
+    default:
+      ++skipped;
+    }
+    if (r.ok)
+      invariants(name, k);
+  }
+  // every slot that is not held can be obtained again, each exactly once
+  while (r.ok && held.size() < size)
+    if (!take((held.size() % 2) == 0, 9999))
+      break;
+  if (r.ok) {
+    invariants("final fill", 9999);
+    if (r.ok && vec.get_free_element_safe() != size)
+      r.fail("the completely filled pool handed out one more slot");
+  }
+  if (bulk_ops)
+    r.label("bulk-operation");
+  if (released_by_clear_after && kept_by_clear_after)
+    r.label("clear_after-kept-a-block-and-released-slots");
+  if (gets_after_bulk)
+    r.label("slot-requested-after-a-bulk-operation");
+  if (refused)
+    r.label("refusal-seen");
+  if (wrapped)
+    r.label("cursor-wrapped");
+  r.nontrivial = bulk_ops > 0 && gets_after_bulk > 0;
+  return r;
+}
+
 // ========================================================= 2. tasks and queues
 enum { T_NEW = 0, T_GETQ, T_TRYQ, T_SCHED, T_FINISH, T_CS, T_NOPS };
 enum { ST_FREE = 0, ST_SETUP, ST_QUEUED, ST_HANDED };
@@ -2267,6 +2494,21 @@ int main(int argc, char **argv) {
         {"pool-reached-capacity", 0.3},
         {"cursor-wrapped", 0.3},
         {"sequential-spec-checked-solo", 0.3}}});
+  props.push_back(
+      {"pool_phases", 40000, gen_phase_case, o_phases,
+       "sequential histories of 4-40 operations on one ThreadSafeVector<int> "
+       "of 2-9 slots mixing the per-slot calls (get_free_element, "
+       "get_free_element_safe, free_element) with the bulk calls that are only "
+       "legal while nothing else is in progress (get_free_elements on an "
+       "empty pool, clear_after(offset) with the leading block held, "
+       "clear_fast on an empty pool, clear); after every call: occupancy "
+       "count, is_empty and the set of slots marked in use equal the model's "
+       "held set and held contents are intact; at the end every slot not held "
+       "is obtained exactly once and the full pool refuses. Non-trivial: a "
+       "bulk call was executed and a slot was requested after it.",
+       {{"bulk-operation", 0.6},
+        {"clear_after-kept-a-block-and-released-slots", 0.1},
+        {"slot-requested-after-a-bulk-operation", 0.5}}});
   props.push_back(
       {"task_queues", 40000, []() { return gen_task_case(4, 20); }, o_tasks,
        "2-4 logical threads x 1-20 operations on a ThreadSafeVector<Task> "
